@@ -1,5 +1,6 @@
 """C08 - == is a structural equivalence and < a total order, mutually consistent."""
 import itertools
+import re
 import json
 import random
 import time
@@ -143,9 +144,56 @@ def model_compare(a, b):
     return (len(a) > len(b)) - (len(a) < len(b))
 
 
-def pair_cases(pairs):
-    for (sa, ma), (sb, mb) in pairs:
-        head = "local a = %s, b = %s; " % (sa, sb)
+FORMS = ["locals", "inline", "rhs_literal", "lhs_literal", "params", "elements", "fields"]
+_AB = re.compile(r"(?<![\w.])([ab])(?![\w(])")
+
+
+def _subst(expr, sa=None, sb=None):
+    """Replaces the operand names in the (fixed, literal-free) comparison expression in ONE pass."""
+    def f(m):
+        if m.group(1) == "a":
+            return "(" + sa + ")" if sa is not None else "a"
+        return "(" + sb + ")" if sb is not None else "b"
+    return _AB.sub(f, expr)
+
+
+def in_form(form, sa, sb, expr):
+    """The same comparison expression over operands that reach the operator in different ways: through locals, written
+    inline (literal operands), one of each, as parameters, as elements / fields of a container, or as one aliased value."""
+    if form == "locals":
+        return "local a = %s, b = %s; %s" % (sa, sb, expr)
+    if form == "inline":
+        return _subst(expr, sa, sb)
+    if form == "rhs_literal":
+        return "local a = %s; %s" % (sa, _subst(expr, None, sb))
+    if form == "lhs_literal":
+        return "local b = %s; %s" % (sb, _subst(expr, sa, None))
+    if form == "params":
+        return "(function(a, b) %s)(%s, %s)" % (expr, sa, sb)
+    if form == "elements":
+        return "local t = [%s, %s]; local a = t[0], b = t[1]; %s" % (sa, sb, expr)
+    if form == "fields":
+        return "local t = {x: %s, y:: %s}; local a = t.x, b = t.y; %s" % (sa, sb, expr)
+    if form == "alias":
+        return "local a = %s, b = a; %s" % (sa, expr)
+    raise AssertionError(form)
+
+
+def pair_cases(pairs, seed=0):
+    for k, ((sa, ma), (sb, mb)) in enumerate(pairs):
+        for name, expr, exp in pair_exprs(sa, ma, sb, mb):
+            forms = [FORMS[(k + seed) % len(FORMS)]]
+            if k % 3 == 0 and forms[0] != "locals":
+                forms.append("locals")
+            if sa == sb:
+                forms.append("alias")
+            for form in forms:
+                yield (name, in_form(form, sa, sb, expr), exp)
+
+
+def pair_exprs(sa, ma, sb, mb):
+    if True:
+        head = ""
         # equality vector
         try:
             e = model_equal(ma, mb)
@@ -182,6 +230,9 @@ def pair_cases(pairs):
             for op in ("<", "<=", ">", ">="):
                 yield ("unordered", head + "a %s b" % op, Err())
             yield ("unordered_compare", head + "std.__compare(a, b)", Err())
+            if isinstance(ma, list) and isinstance(mb, list):
+                for fn in ("__compare_array", "__array_less", "__array_less_or_equal", "__array_greater", "__array_greater_or_equal"):
+                    yield ("unordered_array_entry_points", head + "std.%s(a, b)" % fn, Err())
 
 
 def e_ok(ma, mb):
@@ -194,7 +245,7 @@ def pairs_shard(args):
     agg = Agg()
     ev = Ev(agg)
     try:
-        run_cases(agg, ev, pair_cases(((P[i], P[j]) for i, j in idx_pairs)))
+        run_cases(agg, ev, pair_cases(((P[i], P[j]) for i, j in idx_pairs), seed))
         agg.add("pool_size", len(P))
     finally:
         ev.close()
@@ -347,7 +398,9 @@ def run(tier, seed):
             "functions) " + ("all ordered pairs" if exhaustive else "5000 sampled ordered pairs") +
             "; per pair an equality vector (== != std.equals symmetric reflexive assertEqual) and an order vector "
             "(< <= > >= __compare, __compare_array/__array_* for arrays) against a Python model of JSON equality and "
-            "the spec's ordering, unordered pairs must error; sampled triples for transitivity evaluated inside "
+            "the spec's ordering, unordered pairs must error through every entry point (operators, __compare, __compare_array, __array_*); "
+            "the operands reach the operators in rotating forms (locals, inline literals, literal on one side only, parameters, array "
+            "elements, object fields, one aliased value for reflexive pairs); sampled triples for transitivity evaluated inside "
             "Jsonnet; random values with near-equal perturbations; lazily failing tails beyond the deciding "
             "position. distinct_nontrivial = distinct (family, source) programs compared.")
     return common.finish(PROP, tier, seed, total, rule, t0, extra={"pool": n, "all_pairs": exhaustive},
